@@ -302,6 +302,29 @@ func isAppend(p Path) bool {
 	return ok && int(i) == -1
 }
 
+// countRemovals counts the leading test and remove pairs of the patch
+// which have the same path as its first operation.
+func countRemovals(patch []patchElement) int {
+	n := 0
+	for i := 0; i+1 < len(patch); i += 2 {
+		if patch[i].Op != "test" || (patch[i+1].Op != "remove" && patch[i+1].Op != "replace") {
+			break
+		}
+		if patch[i].Path != patch[0].Path || patch[i+1].Path != patch[0].Path {
+			break
+		}
+		n++
+	}
+	return n
+}
+
+// sameArray reports whether two JSON Pointers address elements of the
+// same array (or members of the same object).
+func sameArray(a, b string) bool {
+	i, j := strings.LastIndex(a, "/"), strings.LastIndex(b, "/")
+	return i >= 0 && j >= 0 && a[:i] == b[:j]
+}
+
 // setPatchDiffElementContext detects before and/or after context and
 // sets it on the diff element. It returns what remains of the
 // patch. We expect exactly zero or one test before and zero or one
@@ -353,6 +376,9 @@ func setPatchDiffElementContext(patch []patchElement, d *DiffElement) ([]patchEl
 		d.Before = []JsonNode{voidNode{}}
 		d.After = []JsonNode{voidNode{}}
 		return patch, nil
+	case !sameArray(patch[0].Path, patch[1].Path):
+		// A test of some other location is not context.
+		return patch, nil
 	case firstIndex == secondIndex && (patch[1].Op == "add"):
 		// After context with add, which inserts before,
 		// moving the rest of the array forward.
@@ -391,7 +417,11 @@ func setPatchDiffElementContext(patch []patchElement, d *DiffElement) ([]patchEl
 		return nil, fmt.Errorf("expected path for array. got %q", patch[2].Path)
 	}
 	switch {
-	case (patch[2].Op == "test" || patch[2].Op == "add") && thirdIndex <= secondIndex:
+	case !sameArray(patch[1].Path, patch[2].Path):
+		// Something else.
+		return patch, nil
+	case (patch[2].Op == "test" || patch[2].Op == "add") && thirdIndex <= secondIndex &&
+		firstIndex == thirdIndex-1 && secondIndex == thirdIndex+PathIndex(countRemovals(patch[2:])):
 		// Before and after context.
 		before, err := NewJsonNode(patch[0].Value)
 		if err != nil {
@@ -404,7 +434,8 @@ func setPatchDiffElementContext(patch []patchElement, d *DiffElement) ([]patchEl
 		}
 		d.After = []JsonNode{after}
 		return patch[2:], nil
-	case patch[1].Op == "test" && (patch[2].Op == "replace" || patch[2].Op == "remove") && firstIndex > secondIndex:
+	case patch[1].Op == "test" && (patch[2].Op == "replace" || patch[2].Op == "remove") && firstIndex > secondIndex &&
+		firstIndex == secondIndex+PathIndex(countRemovals(patch[1:])):
 		// After context with replace / remove.
 		d.Before = []JsonNode{voidNode{}}
 		after, err := NewJsonNode(patch[0].Value)
@@ -413,7 +444,7 @@ func setPatchDiffElementContext(patch []patchElement, d *DiffElement) ([]patchEl
 		}
 		d.After = []JsonNode{after}
 		return patch[1:], nil
-	case patch[1].Op == "test" && (patch[2].Op == "replace" || patch[2].Op == "remove") && firstIndex < secondIndex:
+	case patch[1].Op == "test" && (patch[2].Op == "replace" || patch[2].Op == "remove") && firstIndex == secondIndex-1:
 		// Before context with replace / remove.
 		before, err := NewJsonNode(patch[0].Value)
 		if err != nil {
